@@ -159,6 +159,18 @@ fn amb2(_: &mut Zw, a: u32) {
 fn pr(_: &mut Zw, p: Pair, n: i32) {
     log(format!("pr|{}|{n}", p.0));
 }
+type StepResult = Result<(), String>;
+type Fallible<T = ()> = Result<T, Box<dyn std::error::Error>>;
+#[when(regex = r"^alias (\w+)$")]
+fn alias1(_: &mut Zw, x: String) -> StepResult {
+    log(format!("alias1|{x}"));
+    if x == "ok" { Ok(()) } else { Err(format!("returned err {x}")) }
+}
+#[then(regex = r"^alias2 (\w+)$")]
+async fn alias2(_: &mut Zw, x: String) -> Fallible {
+    log(format!("alias2|{x}"));
+    if x == "ok" { Ok(()) } else { Err(format!("returned err {x}").into()) }
+}
 // a second World: its own registry
 #[given(regex = r"^(\d+) and (\w+)$")]
 fn two2(_: &mut Zw2, a: u32, b: String) {
